@@ -21,6 +21,7 @@ type scase struct {
 	stages [][2]int64 // duration ns, target
 	start  *int64
 	ts     []int64
+	direct bool // drive staged.RateCalculator directly
 }
 
 func (c scase) args() []string {
@@ -48,6 +49,25 @@ func runStaged(c scase) string {
 		if c.start != nil {
 			t := time.Unix(0, *c.start)
 			st = &t
+		}
+		if c.direct {
+			// the calculator itself, as CalculateStagedRate builds it; its total duration is read
+			// after the queries (and must still be the sum of all stage durations)
+			stages, e := staged.ParseStages(strings.Join(parts, ","))
+			if e != nil {
+				err = e
+				return
+			}
+			calc := staged.NewRateCalculator(stages, st)
+			before := calc.MaxDuration()
+			for _, t := range c.ts {
+				outs = append(outs, int64(calc.Rate(time.Unix(0, t))))
+			}
+			total = calc.MaxDuration()
+			if before != total {
+				total = -1 - total // not the same before and after the queries: never equal to the model's sum
+			}
+			return
 		}
 		var rates, e = staged.CalculateStagedRate(0, time.Second, strings.Join(parts, ","), "none", st)
 		if e != nil {
@@ -94,6 +114,7 @@ func genStaged(r *kit.Rand) scase {
 		s := t0
 		c.start = &s
 	}
+	c.direct = r.Chance(40)
 	// non-decreasing query times from the start: boundaries +-1ns, inside, beyond
 	var cand []int64
 	cum := int64(0)
